@@ -36,11 +36,11 @@ class C06(IRProp):
     id = "C06"
     prop_file = "Properties/C06.v"
     tag = "c06"
-    genopts = dict(with_aux=False, nfun_max=3, whole_del=0.15, orphan_code=0.25)
+    genopts = dict(with_aux=False, nfun_max=3, whole_del=0.15, orphan_code=0.25, late_entry=0.3)
     trusted_base = IRProp.base_trusted
     assumptions = ["register_insert_function is not exercised by the generator (the model has no function insertion); that clause is left to the suite"]
     level_rule = ("random x86-64 modules with 0-3 functions of 1-3 blocks plus blocks outside any function and data blocks; insertions, replacements, "
-                  "deletions (incl. whole entry blocks, with and without retarget_to_proxy)")
+                  "deletions (incl. whole entry blocks, with and without retarget_to_proxy); the entry of a function is its first block or (30%) a later one")
     oracle_text = ("when the modify cache is left: every code block lying in the interval of original block i (remnants and inserted code) belongs to "
                    "exactly the function block i belonged to, data blocks to none, entries are a subset of blocks, the entry is the block at the start "
                    "of the original entry's interval (or the promoted next block of the same function when the entry block was deleted, none with "
@@ -74,7 +74,7 @@ class C06(IRProp):
         proxied = {i for (i, t, off, ln, patch, to_proxy) in case.mods if t == "del" and to_proxy}
         for f in alive:
             own = [i for i, x in enumerate(case.blocks) if x.get("func") == f]
-            e0 = own[0]
+            e0 = getattr(case, "entry_of", {}).get(f, own[0])
             has_code = lambda j: any(jj == j and kind == "c" for (jj, off, size, kind, owners) in obs["blocks"])
             if has_code(e0):
                 want = [(e0, 0)]            # still there (possibly as a documented zero-sized block)
